@@ -1,4 +1,4 @@
-import Qentem.Proofs.HashTableSort
+import Qentem.Proofs.HashTableRename
 /-!
 One step of the layout model refines one step of the slot specification; lifted to operation
 sequences by induction.
@@ -6,14 +6,9 @@ sequences by induction.
 namespace Qentem.HashTable
 variable {V : Type}
 
-/-- Operations whose refinement proof is complete (the others are stated in `Props/C13.lean`). -/
-def Op.Proved : Op V → Prop
-  | .rename _ _ => False
-  | _ => True
-
 /-- One step: no fault, invariant kept, same abstract effect and same output. -/
 theorem step_refines [Inhabited V] {H : List Nat → Nat} (ord : Nat → Nat) (hH : ∀ k, H k ≠ 0) {s : HT V}
-    (hI : Inv H s) (op : Op V) (hop : op.Proved) :
+    (hI : Inv H s) (op : Op V) :
     ∃ s' o, step H ord s op = some (s', o) ∧ Inv H s' ∧ (abs s', o) = Spec.step ord (abs s) op := by
   cases op with
   | insert k v =>
@@ -35,7 +30,12 @@ theorem step_refines [Inhabited V] {H : List Nat → Nat} (ord : Nat → Nat) (h
   | removeIdx i =>
     obtain ⟨s', hrun, hI', habs⟩ := removeIdx_spec hI hH i
     exact ⟨s', .unit, by simp [step, hrun], hI', by simp [Spec.step, habs]⟩
-  | rename a b => exact absurd hop (by simp [Op.Proved])
+  | rename a b =>
+    obtain ⟨s', r, hrun, hI', habs⟩ := rename_spec hI hH a b
+    exact ⟨s', .flag r, by simp [step, hrun], hI', by
+      have h1 : (Spec.rename (abs s) a b).1 = abs s' := by rw [← habs]
+      have h2 : (Spec.rename (abs s) a b).2 = r := by rw [← habs]
+      simp [Spec.step, h1, h2]⟩
   | reserve n =>
     exact ⟨reserve s n, .unit, by simp [step], (reserve_spec hI n).1, by simp [Spec.step, (reserve_spec hI n).2]⟩
   | resize n =>
@@ -67,12 +67,12 @@ theorem step_refines [Inhabited V] {H : List Nat → Nat} (ord : Nat → Nat) (h
 /-- Every operation sequence: the run never faults, ends in a state satisfying the invariant, and
 its abstract state and all outputs are those of the specification. -/
 theorem run_refines [Inhabited V] {H : List Nat → Nat} (ord : Nat → Nat) (hH : ∀ k, H k ≠ 0) :
-    ∀ (ops : List (Op V)) {s : HT V}, Inv H s → (∀ op ∈ ops, op.Proved) →
+    ∀ (ops : List (Op V)) {s : HT V}, Inv H s →
     ∃ s' os, run H ord s ops = some (s', os) ∧ Inv H s' ∧ (abs s', os) = Spec.run ord (abs s) ops
-  | [], s, hI, _ => ⟨s, [], rfl, hI, rfl⟩
-  | op :: ops, s, hI, hops => by
-    obtain ⟨s1, o, hstep, hI1, habs1⟩ := step_refines ord hH hI op (hops op (by simp))
-    obtain ⟨s2, os, hrun, hI2, habs2⟩ := run_refines ord hH ops hI1 (fun op' h => hops op' (by simp [h]))
+  | [], s, hI => ⟨s, [], rfl, hI, rfl⟩
+  | op :: ops, s, hI => by
+    obtain ⟨s1, o, hstep, hI1, habs1⟩ := step_refines ord hH hI op
+    obtain ⟨s2, os, hrun, hI2, habs2⟩ := run_refines ord hH ops hI1
     refine ⟨s2, o :: os, by simp [run, hstep, hrun], hI2, ?_⟩
     have h1 : (Spec.step ord (abs s) op).1 = abs s1 := by rw [← habs1]
     have h2 : (Spec.step ord (abs s) op).2 = o := by rw [← habs1]
